@@ -67,6 +67,8 @@ def declare(reg):
                       'expectingstr': 'str', '_rule': 'optopaque:Model', 'rhs': 'opaque:Model'}.items():
         reg.opaque_attrs[('Model', attr)] = ('attr', srt)
     reg.opaque_attrs[('Model', '_parse')] = ('method', 'PARSE')
+    reg.opaque_attrs[('Model', 'is_nullable')] = ('ufmethod', 'uf_is_nullable:bool')
+    reg.opaque_attrs[('Model', '_nullable')] = ('attr', 'bool')
     reg.ctx_methods = {'find_rule': 'tatsu/peg/base.py:ModelContext.find_rule'}
     reg.opaque_attrs[('Model', '_add_defined')] = ('contract', 'tatsu/peg/base.py:Model._add_defined')
     for m in ('trace_match', 'trace_cut', 'trace_entry', 'trace_success', 'trace_failure', 'trace_event'):
